@@ -62,6 +62,7 @@ func corner() []pipe.Scenario {
 	out = append(out, importChains()...)
 	out = append(out, lineDirectiveCases()...)
 	out = append(out, otherModules()...)
+	out = append(out, rootPackage()...)
 	return out
 }
 
@@ -262,6 +263,8 @@ func (prop) Generate(r *core.RNG, tier string) []json.RawMessage {
 		}
 		if r.Chance(25) {
 			pipe.AddForeign(r, &sc)
+		} else if r.Chance(25) {
+			rootImported(r, &sc)
 		}
 		out = append(out, enc(sc))
 	}
@@ -494,6 +497,23 @@ func tags(sc pipe.Scenario, obs *pipe.Observation, sum pipe.Summary) []string {
 	if work && !sc.All {
 		t = append(t, "unrequested-import-has-work(not-all)")
 	}
+	for _, p := range obs.Run.World.Pkgs {
+		if p.Dir != "" || p.Direct {
+			continue
+		}
+		k := "root-package:unrequested"
+		for _, q := range sc.Module.Pkgs {
+			for _, im := range q.Imports {
+				if im == "" && pipe.Requested(sc.Entry, q.Dir) {
+					k = "root-package:unrequested,imported-by-requested"
+				}
+			}
+		}
+		if !sc.All {
+			k += "(not-all)"
+		}
+		t = append(t, k)
+	}
 	return t
 }
 
@@ -507,4 +527,142 @@ func (prop) Shrink(in json.RawMessage) []json.RawMessage {
 		out = append(out, enc(c))
 	}
 	return out
+}
+
+// the module ROOT directory is itself a package (package path == module path).  It is NOT requested; the requested
+// sub-package(s) import it (directly / transitively) or do not import it at all.  It has work to do: tagged types whose
+// output is missing or outdated, stale <base>.* files, look-alikes.  Without All nothing in the root directory (nor in the
+// other unrequested packages) may change; with All, or when "." is among the patterns, it is processed like any other.
+func rootPackage() []pipe.Scenario {
+	on := []string{"g1"}
+	var out []pipe.Scenario
+	for _, modPath := range []string{"example.com/m", "m.test/mod/v2"} {
+		for layout := 0; layout < 4; layout++ {
+			root := pipe.Pkg{Dir: "", Name: "root", Types: []pipe.Type{{Name: "R", Enabled: on}, {Name: "RA", Alias: "int", Enabled: on}}}
+			sub := pipe.Pkg{Dir: "sub", Name: "sub", Types: []pipe.Type{{Name: "S", Enabled: on}}}
+			mid := pipe.Pkg{Dir: "mid", Name: "mid", Types: []pipe.Type{{Name: "M", Enabled: on}}}
+			other := pipe.Pkg{Dir: "other", Name: "other", Types: []pipe.Type{{Name: "O", Enabled: on}}}
+			deep := pipe.Pkg{Dir: "sub/deep", Name: "deep", Imports: []string{"sub"}, Types: []pipe.Type{{Name: "D", Enabled: on}}}
+			switch layout {
+			case 0: // sub -> root, sub -> other
+				sub.Imports = []string{"", "other"}
+			case 1: // sub -> mid -> root
+				sub.Imports, mid.Imports = []string{"mid"}, []string{""}
+			case 2: // nobody imports the root package; sub -> other
+				sub.Imports = []string{"other"}
+			case 3: // sub -> root, root's previous output is up to date apart from the stale files
+				sub.Imports = []string{""}
+			}
+			m := pipe.Module{ModPath: modPath, GoVer: "1.22", Pkgs: []pipe.Pkg{root, sub, mid, other, deep}, Files: []pipe.File{
+				{Path: "zz_generated.old.go", Content: "package root\n\n// stale output\n"},
+				{Path: "zz_generatedx.go", Content: "package root\n\n// look-alike\n"},
+				{Path: "other/zz_generated.old.go", Content: "package other\n\n// stale output\n"},
+				{Path: "mid/zz_generated.g1.go", Content: "package mid\n\n// previous output of g1\n"}}}
+			if layout == 3 {
+				m.Files = append(m.Files, pipe.File{Path: "zz_generated.g1.go", Content: "package root\n\n// previous output of g1\n"})
+			}
+			steps := map[string]pipe.Step{}
+			for _, k := range []string{" R", " RA", "/sub S", "/mid M", "/other O", "/sub/deep D"} {
+				steps[modPath+k] = pipe.Step{Body: "var V" + k[strings.LastIndex(k, " ")+1:] + " = 1\n"}
+			}
+			gens := []pipe.Gen{{Name: "g1", Alias: true, Steps: steps}}
+			entries := [][]string{{"./sub"}, {"./sub/..."}, {"./sub/deep"}, {"./sub", "./other"}}
+			if layout == 1 {
+				entries = [][]string{{"./sub"}, {"./mid"}, {"./sub", "./mid"}}
+			}
+			for _, entry := range entries {
+				out = append(out, pipe.Scenario{Module: m, Entry: entry, Force: layout == 3, Base: "zz_generated", Gens: gens})
+			}
+			if modPath == "example.com/m" {
+				// controls: the root package IS selected (All / "." / "./...")
+				out = append(out, pipe.Scenario{Module: m, Entry: []string{"./sub"}, All: true, Base: "zz_generated", Gens: gens},
+					pipe.Scenario{Module: m, Entry: []string{".", "./sub"}, Base: "zz_generated", Gens: gens},
+					pipe.Scenario{Module: m, Entry: []string{"./..."}, Base: "zz_generated", Gens: gens})
+			}
+		}
+	}
+	return out
+}
+
+// rootImported turns a random scenario into one whose module root is a package that the requested packages import but
+// that is not requested itself (c07 only; the shared RandScenario stream never has an import edge INTO the root package,
+// because its edges go forwards in directory order and "" sorts first).
+func rootImported(r *core.RNG, sc *pipe.Scenario) {
+	m := &sc.Module
+	if len(m.Ext) > 0 {
+		return
+	}
+	names := []string{}
+	for _, g := range sc.Gens {
+		names = append(names, g.Name)
+	}
+	ri := -1
+	for i, p := range m.Pkgs {
+		if p.Dir == "" {
+			ri = i
+		}
+	}
+	if ri < 0 {
+		p := pipe.Pkg{Dir: "", Name: "root"}
+		for k := 0; k < 1+r.Intn(2); k++ {
+			t := pipe.Type{Name: fmt.Sprintf("R%d", k), Enabled: append([]string{}, names...)}
+			if r.Chance(30) {
+				t.Alias = "int"
+			}
+			p.Types = append(p.Types, t)
+			for gi := range sc.Gens {
+				if sc.Gens[gi].Steps == nil {
+					sc.Gens[gi].Steps = map[string]pipe.Step{}
+				}
+				st := pipe.Step{}
+				if r.Chance(70) {
+					st.Body = "var V_" + sc.Gens[gi].Name + "_" + t.Name + " = 1\n"
+				}
+				sc.Gens[gi].Steps[m.ModPath+" "+t.Name] = st
+			}
+		}
+		m.Pkgs = append([]pipe.Pkg{p}, m.Pkgs...)
+		ri = 0
+		if r.Chance(60) {
+			m.Files = append(m.Files, pipe.File{Path: sc.Base + ".old.go", Content: "package root\n\n// stale output\n"})
+		}
+		if r.Chance(40) && len(names) > 0 {
+			m.Files = append(m.Files, pipe.File{Path: sc.Base + "." + names[0] + ".go", Content: "package root\n\n// previous output of " + names[0] + "\n"})
+		}
+		if r.Chance(40) {
+			m.Files = append(m.Files, pipe.File{Path: sc.Base + "x.go", Content: "package root\n\n// look-alike x\n"})
+		}
+	}
+	if len(m.Pkgs) < 2 {
+		m.Pkgs = append(m.Pkgs, pipe.Pkg{Dir: "sub", Name: "sub", Types: []pipe.Type{{Name: "S", Enabled: append([]string{}, names...)}}})
+	}
+	// edges INTO the root package instead of out of it
+	m.Pkgs[ri].Imports = nil
+	var subs []string
+	some := false
+	for i := range m.Pkgs {
+		if i == ri {
+			continue
+		}
+		subs = append(subs, m.Pkgs[i].Dir)
+		if r.Chance(60) {
+			m.Pkgs[i].Imports = append(m.Pkgs[i].Imports, "")
+			some = true
+		}
+	}
+	if !some && r.Chance(80) {
+		for i := range m.Pkgs {
+			if i != ri {
+				m.Pkgs[i].Imports = append(m.Pkgs[i].Imports, "")
+				break
+			}
+		}
+	}
+	sc.Entry = []string{"./" + core.Pick(r, subs)}
+	if r.Chance(30) {
+		if e := "./" + core.Pick(r, subs); e != sc.Entry[0] {
+			sc.Entry = append(sc.Entry, e)
+		}
+	}
+	sc.All = r.Chance(15)
 }
